@@ -37,7 +37,7 @@ def run(chk, mode="three"):
                 exh[ring].append(r)
             else:
                 sim[ring].append(r)
-    nsim = 300 if tier == "quick" else 5000
+    nsim = 25 if tier == "quick" else 400      # sampled runs per program where exhaustive exploration does not fit
     runs = [(ring, False, exh[ring]) for ring in (1, 2)] + [(ring, True, sim[ring]) for ring in (1, 2, 8)]
     for ring, is_sim, rs in runs:
         rs = list(rs)
@@ -45,8 +45,8 @@ def run(chk, mode="three"):
         while rs and rounds < 6:
             rounds += 1
             tag = "%s_r%d_%s" % (mode, ring, "sim" if is_sim else "exh")
-            ok, res, bad = mc.run_aby3(chk, rs, mode, ring, tag, simulate=(nsim * max(1, len(rs) // 20 + 1)) if is_sim else None,
-                                       seed=chk.seed if is_sim else None, timeout=1500 if tier == "quick" else 10000)
+            ok, res, bad = mc.run_aby3(chk, rs, mode, ring, tag, sample_runs=nsim if is_sim else None,
+                                       timeout=1500 if tier == "quick" else 10000)
             chk.count("graphs_%s_ring%d" % ("simulated" if is_sim else "exhaustive", ring), len(rs) if rounds == 1 else 0)
             if ok:
                 break
